@@ -191,6 +191,39 @@ def gen_tie_history(rng, tier):
             "fund_seed": rng.randrange(1 << 30), "scalars": None}
 
 
+def gen_both_sides_market_history(rng, tier):
+    """market orders accumulate on BOTH sides while matching is off (often with equal total volume), in front of limit
+    orders that are one to three ticks apart and do not cross; then matching resumes."""
+    tick = rng.choice([0.1, 0.01, 0.05, 1e-5, 1.0, 0.5, 0.25])
+    base = rng.choice([3, 4, 5, 6, 12, 24, 29, 100, 1000])
+    ops = [["R", True]]
+    for _ in range(rng.randint(1, 4)):
+        ops.append(["R", False])
+        gap = rng.choice([1, 1, 1, 2, 3])
+        lo = base + rng.randint(-1, 2)
+        for k in range(rng.randint(1, 3)):
+            ops.append(["L", True, (lo - k) * tick, rng.randint(1, 3), None, 0])
+            ops.append(["L", False, (lo + gap + k) * tick, rng.randint(1, 3), None, 1])
+        vols = [rng.choice([1, 2]) for _ in range(rng.randint(1, 3))]
+        for v in vols:
+            ops.append(["M", True, v, None, 2])
+        if rng.random() < 0.7:
+            rng.shuffle(vols)           # the same total on the other side
+        else:
+            vols = [rng.choice([1, 2, 3]) for _ in range(rng.randint(1, 3))]
+        for v in vols:
+            ops.append(["M", False, v, None, 3])
+        if rng.random() < 0.3:
+            ops.append(["T"])
+        ops.append(["R", True])
+        ops.append(["X"])
+        for _ in range(rng.randint(0, 4)):
+            ops.append(["L", rng.random() < 0.5, (lo + rng.randint(-2, gap + 2)) * tick, rng.randint(1, 2), rng.choice([None, 3]), 1])
+        ops.append(["T"])
+    return {"tick": tick, "p0": base * tick, "auto": True, "mode": "both-sides-market", "ops": ops,
+            "fund_seed": rng.randrange(1 << 30), "scalars": None}
+
+
 def gen_churn_history(rng, tier):
     """accumulation: hundreds of short-lived orders with a lifetime that are cancelled or filled long before they
     would expire, next to a few resting orders whose expiry must still happen exactly on time."""
@@ -232,7 +265,8 @@ def gen_churn_history(rng, tier):
             "fund_seed": rng.randrange(1 << 30), "scalars": None}
 
 
-RF_FORMS = ["order_for_another_market", "resubmission", "cancel_of_another_markets_order", "cancel_of_unsubmitted_order"]
+RF_FORMS = ["order_for_another_market", "resubmission", "cancel_of_another_markets_order", "cancel_of_unsubmitted_order",
+            "resting_order_offered_to_another_market"]
 
 
 class DirectRun:
@@ -345,6 +379,20 @@ class DirectRun:
                     if old is None or old.order_id is None:
                         return
                     m._add_order(old)
+                elif form == "resting_order_offered_to_another_market":
+                    # a router that tries venues in turn: an order resting here is handed to a venue with a much
+                    # coarser grid, which refuses it (it names this market)
+                    if getattr(self, "coarse", None) is None:
+                        from pams.market import Market
+
+                        self.coarse = Market(market_id=m.market_id + 9, prng=random.Random(6), simulator=SimStub(), name="coarse")
+                        self.coarse.setup({"tickSize": m.tick_size * 16, "marketPrice": self.case["p0"]})
+                        self.coarse._update_time(next_fundamental_price=self.case["p0"])
+                    live = [x for x in self.submitted if x.order_id is not None and x.volume > 0 and not x.is_canceled
+                            and x.price is not None and not (x.ttl is not None and x.placed_at + x.ttl < m.time)]
+                    if not live:
+                        return
+                    self.coarse._add_order(live[op[2] % len(live)])
                 elif form == "cancel_of_another_markets_order":
                     if getattr(self, "other", None) is None:
                         from pams.market import Market
